@@ -178,6 +178,26 @@ func run(scratch string) int {
 		bin := build(scratch, harness, instr, tags, race)
 		fmt.Fprintf(os.Stderr, "vcheck: built %s in %.1fs\n", harness, time.Since(t0).Seconds())
 		return execBin(bin, rest, scratch)
+	case "build":
+		// vcheck build <harness> <out> [-i] [-race]
+		instr, race := false, false
+		for _, a := range os.Args[4:] {
+			if a == "-i" {
+				instr = true
+			}
+			if a == "-race" {
+				race = true
+			}
+		}
+		bin := build(scratch, os.Args[2], instr, "", race)
+		b, err := os.ReadFile(bin)
+		if err != nil {
+			fatal(2, "%v", err)
+		}
+		if err := os.WriteFile(os.Args[3], b, 0o755); err != nil {
+			fatal(2, "%v", err)
+		}
+		return 0
 	case "run":
 		id := os.Args[2]
 		tier := os.Getenv("VERIF_TIER")
